@@ -325,6 +325,11 @@ Lemma rets_bind A B (Q : B -> Prop) (p : prog A) (f : A -> prog B) :
   (forall a, rets Q (f a)) -> rets Q (bind p f).
 Proof. intro Hf. induction p; cbn; try (constructor; auto; fail). apply Hf. Qed.
 
+(* sequencing with a postcondition of the first program *)
+Lemma rets_bind2 A B (R : A -> Prop) (Q : B -> Prop) (p : prog A) (f : A -> prog B) :
+  rets R p -> (forall a, R a -> rets Q (f a)) -> rets Q (bind p f).
+Proof. intros Hp Hf. induction Hp; cbn; try (constructor; auto; fail). apply Hf. assumption. Qed.
+
 Lemma rets_feed A (Q : A -> Prop) (p : prog A) : rets Q p -> forall ts, rets Q (feed ts p).
 Proof. induction 1; intros [|t ts]; cbn; try (constructor; auto; fail); auto. Qed.
 
@@ -387,7 +392,7 @@ Proof. induction 1; intros [|t ts]; cbn; try (constructor; auto; fail); auto. Qe
 
 Definition agree_below (k : nat) (pl pl' : plan) : Prop :=
   (forall i, i < k -> p_fail pl i = p_fail pl' i) /\
-  p_cancel pl = p_cancel pl' /\ p_hs_ok pl = p_hs_ok pl'.
+  (forall w, w_ops w <= k -> ctx_done pl w = ctx_done pl' w) /\ p_hs_ok pl = p_hs_ok pl'.
 
 (* Two runs of one program from one world, under plans that agree on every operation below k:
    either neither run reaches operation k and they coincide, or both reach it. *)
@@ -399,8 +404,8 @@ Proof.
   intros [Hf [_ Hh]] Hlt. unfold op_ok. rewrite (Hf _ Hlt), Hh. reflexivity.
 Qed.
 
-Lemma ctx_done_agree k pl pl' w : agree_below k pl pl' -> ctx_done pl w = ctx_done pl' w.
-Proof. intros [_ [Hc _]]. unfold ctx_done. rewrite Hc. reflexivity. Qed.
+Lemma ctx_done_agree k pl pl' w : agree_below k pl pl' -> w_ops w <= k -> ctx_done pl w = ctx_done pl' w.
+Proof. intros [_ [Hc _]] Hle. apply Hc. exact Hle. Qed.
 
 Lemma pass_mono A (p : prog A) pl k w : k < w_ops w -> k < w_ops (snd (interp pl p w)).
 Proof. intro H. pose proof (interp_ops_mono p pl w). lia. Qed.
@@ -459,7 +464,7 @@ Proof.
   - unfold do_write. destruct (Nat.eq_dec (w_ops w) k) as [E|E].
     + right. split; apply pass_mono; cbn; lia.
     + rewrite (@op_ok_agree k pl pl' w true Hag) by lia. apply IH. cbn. lia.
-  - rewrite <- (@ctx_done_agree k pl pl' w Hag). destruct (ctx_done pl w).
+  - rewrite <- (@ctx_done_agree k pl pl' w Hag Hle). destruct (ctx_done pl w).
     + destruct (IHe w Hle) as [[Heq Hk]|[H1 H2]].
       * left. rewrite <- Heq. cbn. split; [reflexivity | exact Hk].
       * right. cbn. split; assumption.
@@ -522,4 +527,101 @@ Proof.
   - apply IH. exact Hle.
   - apply IH. destruct rs; exact Hle.
   - apply IH. exact Hle.
+Qed.
+
+(* ------------------------------------------------------------------ cancelling the context *)
+
+(* Reads and writes do not look at the cancellation. *)
+Lemma read_tok_from_cancel f c c' hs s : forall w,
+  read_tok_from (mkPlan f c hs) w s = read_tok_from (mkPlan f c' hs) w s.
+Proof.
+  induction s as [|it r IH]; intro w; cbn [read_tok_from]; [reflexivity|].
+  destruct it as [t|]; [reflexivity|].
+  change (do_read_op (mkPlan f c hs) w r true) with (do_read_op (mkPlan f c' hs) w r true).
+  destruct (do_read_op (mkPlan f c' hs) w r true) as [ok w1]. destruct ok; [apply IH | reflexivity].
+Qed.
+
+(* what a token read adds to the trace are read events only *)
+Lemma read_tok_from_trace pl s : forall w,
+  exists nr, w_trace (snd (read_tok_from pl w s)) = nr ++ w_trace w /\ forall e, In e nr -> exists b, e = ERead b.
+Proof.
+  induction s as [|it r IH]; intro w; cbn [read_tok_from].
+  - exists [ERead (op_ok pl w false && false)]. cbn. split; [reflexivity|].
+    intros e [He|[]]. eexists. symmetry. exact He.
+  - destruct it as [t|].
+    + exists []. cbn. split; [reflexivity | intros e []].
+    + unfold do_read_op. destruct (op_ok pl w false && true) eqn:E.
+      * destruct (IH (mkW (S (w_ops w)) r (w_tls w) (w_tlslayer w) false (w_wdead w) (w_bits w) (w_calls w) (ERead true :: w_trace w)))
+          as [nr [Ht Hr]].
+        exists (nr ++ [ERead true]). split.
+        -- rewrite Ht. cbn. rewrite <- app_assoc. reflexivity.
+        -- intros e He. apply in_app_or in He. destruct He as [He|[He|[]]]; [apply Hr; exact He | eexists; symmetry; exact He].
+      * exists [ERead false]. cbn. split; [reflexivity|]. intros e [He|[]]. eexists. symmetry. exact He.
+Qed.
+
+Lemma do_write_trace pl s w :
+  w_trace (snd (do_write pl s w)) = [EWrite s (fst (do_write pl s w))] ++ w_trace w.
+Proof. reflexivity. Qed.
+
+(* all ctx tests that passed did so while at most c operations had been performed *)
+Definition passes_le (c : nat) (new : list event) : Prop := forall n, In (ECtxPass n) new -> n <= c.
+
+(* The run with the context cancelled at operation c against the run without cancellation:
+   the former ends in an error, or the two coincide and no ctx test of the run was made after
+   operation c. (Programs log marker events only: premise [wru_ok].) *)
+Theorem interp_cancel A P (p : prog A) f hs c : wru_ok P p -> forall w,
+  fst (interp (mkPlan f (Some c) hs) p w) = RErr \/
+  (interp (mkPlan f (Some c) hs) p w = interp (mkPlan f None hs) p w /\
+   exists new, w_trace (snd (interp (mkPlan f None hs) p w)) = new ++ w_trace w /\ passes_le c new).
+Proof.
+  set (pl1 := mkPlan f (Some c) hs). set (pl0 := mkPlan f None hs).
+  induction 1 as [a| | | |k _ IH|s k _ IH|s k Hs _ IH|ke k _ IH|ko ke _ IH|k _ IH|m k _ IH|rs k _ IH|e k He _ IH];
+    intro w; cbn [interp].
+  - right. split; [reflexivity|]. exists []. split; [reflexivity | intros n []].
+  - left. reflexivity.
+  - right. split; [reflexivity|]. exists []. split; [reflexivity | intros n []].
+  - right. split; [reflexivity|]. exists []. split; [reflexivity | intros n []].
+  - unfold read_tok.
+    replace (read_tok_from pl1 w (w_script w)) with (read_tok_from pl0 w (w_script w))
+      by (symmetry; apply read_tok_from_cancel).
+    destruct (read_tok_from_trace pl0 (w_script w) w) as [nr [Ht Hr]].
+    destruct (read_tok_from pl0 w (w_script w)) as [[t|] w1]; [|left; reflexivity].
+    cbn [snd] in Ht. destruct (IH t w1) as [He|[Heq [new [Hn Hp]]]]; [left; exact He|].
+    right. split; [exact Heq|]. exists (new ++ nr). split; [rewrite Hn, Ht, app_assoc; reflexivity|].
+    intros n Hin. apply in_app_or in Hin. destruct Hin as [Hin|Hin]; [apply Hp; exact Hin|].
+    destruct (Hr _ Hin) as [b Hb]. discriminate.
+  - change (do_write pl1 s w) with (do_write pl0 s w).
+    destruct (do_write pl0 s w) as [ok w1] eqn:Ew. destruct ok; [|left; reflexivity].
+    pose proof (do_write_trace pl0 s w) as Ht. rewrite Ew in Ht. cbn [fst snd] in Ht.
+    destruct (IH w1) as [He|[Heq [new [Hn Hp]]]]; [left; exact He|].
+    right. split; [exact Heq|]. exists (new ++ [EWrite s true]). split; [rewrite Hn, Ht, app_assoc; reflexivity|].
+    intros n Hin. apply in_app_or in Hin. destruct Hin as [Hin|[Hin|[]]]; [apply Hp; exact Hin | discriminate].
+  - change (do_write pl1 s w) with (do_write pl0 s w).
+    destruct (do_write pl0 s w) as [ok w1] eqn:Ew.
+    pose proof (do_write_trace pl0 s w) as Ht. rewrite Ew in Ht. cbn [fst snd] in Ht.
+    destruct (IH w1) as [He|[Heq [new [Hn Hp]]]]; [left; exact He|].
+    right. split; [exact Heq|]. exists (new ++ [EWrite s ok]). split; [rewrite Hn, Ht, app_assoc; reflexivity|].
+    intros n Hin. apply in_app_or in Hin. destruct Hin as [Hin|[Hin|[]]]; [apply Hp; exact Hin | discriminate].
+  - assert (E0 : ctx_done pl0 w = false) by reflexivity. rewrite E0.
+    destruct (ctx_done pl1 w) eqn:Ec; [left; reflexivity|].
+    assert (Hle : w_ops w <= c).
+    { unfold ctx_done in Ec. cbn in Ec. apply Nat.ltb_ge in Ec. exact Ec. }
+    destruct (IH (set_trace w (ECtxPass (w_ops w)))) as [He|[Heq [new [Hn Hp]]]]; [left; exact He|].
+    right. split; [exact Heq|]. exists (new ++ [ECtxPass (w_ops w)]). split; [rewrite Hn; cbn; rewrite <- app_assoc; reflexivity|].
+    intros n Hin. apply in_app_or in Hin. destruct Hin as [Hin|[Hin|[]]]; [apply Hp; exact Hin|].
+    inversion Hin; subst. exact Hle.
+  - destruct (w_calls w) as [|v vs]; [right; split; [reflexivity|]; exists []; split; [reflexivity | intros n []]|].
+    destruct (sval_err v); [left; reflexivity|].
+    match goal with |- context [interp pl1 (ko v) ?w0] => destruct (IH v w0) as [He|[Heq [new [Hn Hp]]]] end; [left; exact He|].
+    right. split; [exact Heq|]. exists (new ++ [ECall v]). split; [rewrite Hn; cbn; rewrite <- app_assoc; reflexivity|].
+    intros n Hin. apply in_app_or in Hin. destruct Hin as [Hin|[Hin|[]]]; [apply Hp; exact Hin | discriminate].
+  - apply IH.
+  - match goal with |- context [interp pl1 k ?w0] => destruct (IH w0) as [He|[Heq [new [Hn Hp]]]] end; [left; exact He|].
+    right. split; [exact Heq|]. exists new. split; [exact Hn | exact Hp].
+  - destruct (IH (do_restart rs w)) as [He|[Heq [new [Hn Hp]]]]; [left; exact He|].
+    right. split; [exact Heq|]. exists new. split; [rewrite Hn; destruct rs; reflexivity | exact Hp].
+  - destruct (IH (set_trace w e)) as [Hx|[Heq [new [Hn Hp]]]]; [left; exact Hx|].
+    right. split; [exact Heq|]. exists (new ++ [e]). split; [rewrite Hn; cbn; rewrite <- app_assoc; reflexivity|].
+    intros n Hin. apply in_app_or in Hin. destruct Hin as [Hin|[Hin|[]]]; [apply Hp; exact Hin|].
+    subst e. destruct He.
 Qed.
